@@ -460,6 +460,11 @@ def _b_abs(it, x):
     if isinstance(x, z3.ExprRef): return z3.If(x >= 0, x, -x)
     return abs(x)
 def _b_next(it, x, default=NotImplemented):
+    if isinstance(x, GenList):
+        # a generator (evaluated eagerly into a GenList) is one-shot: next() takes its first item away
+        if len(x): return x.pop(0)
+        if default is not NotImplemented: return default
+        raise PyExc(StopIteration)
     items = it.iterate(x)
     if items: return items[0]
     if default is not NotImplemented: return default
